@@ -41,11 +41,11 @@ func (p *Prog) Callees(f *ssa.Function, useCHA bool) []*callgraph.Edge {
 
 // ReachOpts controls reachability.
 type ReachOpts struct {
-	CrossGo  bool                          // follow `go` edges
-	CHA      bool                          // use the CHA graph
-	OnlyRepo bool                          // do not descend into functions outside the module
-	Stop     func(f *ssa.Function) bool    // do not descend into f
-	SkipEdge func(e *callgraph.Edge) bool  // ignore this edge
+	CrossGo  bool                         // follow `go` edges
+	CHA      bool                         // use the CHA graph
+	OnlyRepo bool                         // do not descend into functions outside the module
+	Stop     func(f *ssa.Function) bool   // do not descend into f
+	SkipEdge func(e *callgraph.Edge) bool // ignore this edge
 }
 
 // Reach returns every function reachable from roots, with one predecessor edge for path reporting.
